@@ -289,10 +289,13 @@ def rrun (G : Rng ρ) (post : List Nat → β) : List RStep → ρ → ρ × Lis
 
 end Impl
 
-/-- a concrete generator for the driver and the witnesses: 31-bit LCG -/
+/-- a concrete generator for the driver and the witnesses: 64-bit LCG (Knuth's MMIX constants); `seed` is
+    injective on `[0, 2^64)` (odd multiplier), so distinct numpy seeds (< 2^32) are distinct states -/
 def lcg : Rng Nat where
-  seed := fun k => (k * 2654435761 + 12345) % 2147483648
-  next := fun s => let s1 := (s * 1103515245 + 12345) % 2147483648; (s1 / 65536, s1)
+  seed := fun k => ((k + 1) * 6364136223846793005) % 18446744073709551616
+  next := fun s =>
+    let s1 := (s * 6364136223846793005 + 1442695040888963407) % 18446744073709551616
+    (s1 / 8589934592, s1)
 
 end Purity
 end Model
